@@ -6,6 +6,7 @@ import canon_common as cc
 import lib
 import norm_common as nc
 import normwhole as nw
+import platform_pa as ppa
 import urlgen
 
 ID = "C05"
@@ -75,8 +76,65 @@ THEOREMS += [
     "Ural.Props.C05.strips_tracking_key",
     "Ural.Props.C05.keeps_content_key",
     "Ural.Props.C05.amp_off_strips_less",
+    # platform_aware=True with the CONCRETE branch (Model/Platform.lean, Props/C05Platform.lean): totality of the branch,
+    # (a) transfer off platform hosts, (b) idempotence, (c) deletions of the canonical platform url, (d) D53 witnesses
+    "Ural.Platform.url_total_of",
+    "Ural.Platform.safe_urlsplit_www",
+    "Ural.Platform.is_youtube_url_www",
+    "Ural.Platform.is_facebook_url_www",
+    "Ural.Props.C05.parsed_url_total",
+    "Ural.Props.C05.platformE_total",
+    "Ural.Props.C05.platformE_eq",
+    "Ural.Props.C05.platform_only_platform_hosts",
+    "Ural.Props.C05.platform_only_platform_hosts_module",
+    "Ural.Props.C05.normalize_pa_of_not_platform",
+    "Ural.Props.C05.fingerprint_pa_of_not_platform",
+    "Ural.Props.C05.pa_transfer",
+    "Ural.Props.C05.fp_pa_transfer",
+    "Ural.Props.C05.normalize_string_split_pa",
+    "Ural.Props.C05.normalize_only_deletes_string_pa",
+    "Ural.Props.C05.normalize_unparseable_string_pa",
+    "Ural.Props.C05.normalize_pa_split",
+    "Ural.Props.C05.normalize_pa_only_deletes_or_rewrites",
+    "Ural.Props.C05.normalize_pa_eq_normalize_canonical",
+    "Ural.Props.C05.platform_idempotent",
+    "Ural.Props.C05.platform_idempotent_module",
+    "Ural.Props.C05.platform_idempotent_needs_charsOk",
+    "Ural.Props.C05.isPlatformUrl_eq_host",
+    "Ural.Props.C05.isPlatformUrl_of_authority",
+    "Ural.Props.C05.isPlatformUrl_forms",
+    "Ural.Props.C05.youtube_host_iff",
+    "Ural.Props.C05.notPlatform_of_host",
+    "Ural.Props.C05.amp_facebook_not_platform_host",
+    "Ural.Props.C05.d53_escaped_path_letter",
+    "Ural.Props.C05.d53_index_file_name",
+    "Ural.Props.C05.d53_amp_dash_not_platform",
+    "Ural.Props.C05.d53_label_in_front_of_host",
+    "Ural.Props.C05.d53_youtube_escaped_id",
+    "Ural.Props.C05.fullPlatformInvariance_false",
+    "Ural.Props.C04.norm_clean_string_pa",
+    "Ural.Props.C04.norm_surrounding_ws_string_pa",
+    "Ural.Props.C04.norm_scheme_string_pa",
+    "Ural.Props.C04.norm_userinfo_string_pa",
+    "Ural.Props.C04.norm_default_port_string_pa",
+    "Ural.Props.C04.norm_host_case_string_pa",
+    "Ural.Props.C04.norm_irrelevant_label_string_pa",
+    "Ural.Props.C04.norm_trailing_slash_string_pa",
+    "Ural.Props.C04.norm_index_string_pa",
+    "Ural.Props.C04.norm_fragment_string_pa",
+    "Ural.Props.C04.norm_tracking_item_string_pa",
+    "Ural.Props.C04.norm_query_permutation_string_pa",
+    "Ural.Props.C04.norm_amp_semicolon_string_partial_pa",
+    "Ural.Props.C04.norm_tracking_item_first_string_pa",
+    "Ural.Props.C04.norm_tracking_item_alone_string_pa",
+    "Ural.Props.C04.norm_escape_spelling_string_pa",
+    "Ural.Props.C06.fp_case_string_pa",
+    "Ural.Props.C06.fp_port_string_pa",
+    "Ural.Props.C06.fp_gl_hl_string_pa",
+    "Ural.Props.C06.fp_lang_label_string_pa_partial",
+    "Ural.Props.C06.fp_shape_whole_pa",
 ]
-EXTRA_IMPORTS = ["UralModel.Props.C05Whole", "UralModel.Props.C05Total", "UralModel.Props.C05More"]
+EXTRA_IMPORTS = ["UralModel.Props.C05Whole", "UralModel.Props.C05Total", "UralModel.Props.C05More", "UralModel.Props.C05Platform"]
 TABLE_OBLIGATIONS = [
     "Ural.Props.C05.irrelevantSubdomain_pattern",
     "Ural.Props.C05.irrelevantSubdomainAmp_pattern",
@@ -106,7 +164,8 @@ RULE = (
     "of bases; then seeded random URLs (hosts built from irrelevant / look-alike / language labels, index "
     "and AMP path tails, tracking / plain / escaped query items incl. '&amp;' separators, routing and plain "
     "fragments, userinfo, ports, odd schemes) each under every row of a strength-2 covering array over all "
-    "twelve options (incl. platform_aware); then the structure sweep of C01. Model vs implementation: the "
+    "twelve options (incl. platform_aware); then the structure sweep of C01; then facebook / youtube url shapes of the C19 generators "
+    "(their corpora + a seeded sample of their enumerated / random streams) under platform_aware=True x 4 option sets. Model vs implementation: the "
     "string handed to the parser (after infer_redirection and cleaning), the unsplit=False tuple and the "
     "final string; for the small functions the real regex / code vs the hand scanner. Oracle: the Reading "
     "of DESIGN §6 C05 on the implementation, written with urllib.parse and ural's public functions. "
@@ -121,18 +180,25 @@ TRUSTED = [
     "urlsplit and the SplitResult accessors: (a) component-level lines (`norm_parts`): CPython, the harness parses the prepared string with the real parser and ships the components to the model; (b) whole-function lines (`normalize_whole`, every case): the model's own parser (Py/UrlSplit.lean, Py/UrlAccessors.lean) inside Model/NormalizeUrl.lean — string + options in, result out — compared with the real normalize_url; strings outside the parser model's stated domain are counted (whole:outside-model:*) and withheld. The hand parser is compared with CPython, not proved equal to it; urlunsplit is modelled by hand (compared on every run)",
     "attempt_to_decode_idna (CPython idna codec) is the abstract parameter `puny`; the driver uses a per-case table computed by the real codec",
     "hand-written model Model/Normalize.lean (+ Model/UrlParts, Model/Quote, Model/Redirect for infer_redirection), tied to the code by differential execution; regexes with look-around are hand scanners tied to the regenerated pattern strings (obligation) and to the real compiled regexes on regenerated probe lists (obligation) and on every case of the stream",
-    "the platform_aware branch (facebook / youtube parsers) is not modelled: abstract `platform`, the harness ships the rewritten URL's components",
+    "the platform_aware branch: (a) the lines `norm_parts` / `normalize_whole` keep the abstract `platform` — the harness ships the rewritten URL's components, resp. the finite table {string handed to the branch: what it returned}; (b) the lines `normalize_whole_pa` / `platform_branch` (every platform_aware=True case + facebook / youtube url shapes of the C19 generators) ship NOTHING about the branch: it is the concrete Platform.platformConcrete of Model/Platform.lean (normalize_url.py:268-276 built from the C19 models of is_facebook_url, parse_facebook_url + .url, is_youtube_url, normalize_youtube_url), compared with the real normalize_url(u, platform_aware=True) and with the real branch; cases outside the component models' stated domains (model alphabet; parser-model domain of the strings the platform parsers split) are counted (pa:outside-model:*) and withheld. The facebook / youtube models are hand-written and tied to the code by the C19 streams and these, not proved equal to it; YOUTUBE_DOMAINS_TRIE is built once by the driver from the regenerated list",
     "str.lower / str.strip / \\d on non-ASCII characters outside the model alphabet (DESIGN §4) are not modelled",
 ]
 ASSUMPTIONS = [
     "Reading of 'switching strip_trailing_slash off preserves the trailing slash exactly' — the ROOT RULE is outside it: the resolved path of the root is the empty path (normpath('/') == ''), and a path that is exactly '/' after the AMP / index steps becomes empty when the result has neither query nor fragment (normalize_url.py:390-392, 'Always dropping trailing slash with empty query & fragment'), whatever strip_trailing_slash: normalize_url('http://a.com/', strip_trailing_slash=False) == normalize_url('http://a.com//', ...) == normalize_url('http://a.com/index.html', ...) == 'a.com'. The oracle accepts '/' -> '' unconditionally (_path_candidates); for every other path it demands, with the option off, that no trailing slash is removed (theorems option_strip_trailing_slash_off_exact, trailing_slash_kept). The index page goes WITH the slash before it and an AMP marker with its optional slash after it ('/x/index.html' -> '/x', '/x/amp/' -> '/x/' with the option off too): that is the strip_index / normalize_amp clause, not a trailing slash of the input",
     "'irrelevant item' = what should_strip_query_item says on the module's tables (the oracle reads the same tables); independently of it the theorems strips_campaign_key / strips_tracking_key / strips_amp_key / keeps_content_key state what happens to the documented families (utm_* / mtm_* / at_*, click and session ids, amp / amp_*; id, q, p, page, v, t ... kept) — hand-written lists tied to the regenerated patterns by table obligations. No converse beyond the content keys is claimed: the tables are the only documentation of the other keys",
-    "platform_aware=True: the deletion-only clauses are claimed (theorem normalize_platform_partial, oracle) only where the facebook/youtube branch leaves the URL alone; where it fires only totality and correspondence are checked",
+    "platform_aware=True: the ORACLE demands the deletion-only clauses only where the string handed to the branch is no facebook / youtube url; on such urls it demands totality, 'unparseable => unchanged' and a host clause weaker than the property's (the input host OR the canonical platform host, minus irrelevant labels) (the design findings KF-C03-2 / KF-C04-4 / KF-C06-4 = D53 say why). The MODEL says what happens there: the result is glued from deletions of the pieces of the canonical platform url (normalize_pa_only_deletes_or_rewrites), i.e. normalize_url of p.url / of normalize_youtube_url(url) (normalize_pa_eq_normalize_canonical)",
     "paths of URLs without authority that do not start with '/' (mailto:x, custom:a/b) are outside the path clause of the oracle",
 ]
 UNPROVED = (
-    "platform_aware=True where the facebook/youtube branch rewrites the URL: FullPlatform is false "
-    "(fullPlatform_false); explored by correspondence only. The theorems of Props/C05.lean are about "
+    "platform_aware=True: the branch is now the concrete Platform.platformConcrete (Props/C05Platform.lean): it never raises "
+    "(platformE_total, every string); off facebook / youtube hosts it is the identity, so every platform-unaware theorem of C04 / C05 / C06 "
+    "holds with the option on (platform_only_platform_hosts, normalize_pa_of_not_platform, the *_pa corollaries; NotPlatform is a property of the "
+    "host text: isPlatformUrl_eq_host, notPlatform_of_host); on platform urls the deletion-only clauses hold of the CANONICAL platform url "
+    "(normalize_pa_only_deletes_or_rewrites) and the rewriting is idempotent (platform_idempotent: youtube every string; facebook under C19's residual "
+    "hypothesis charsOk, platform_idempotent_needs_charsOk shows it fails without). NOT provable, because false: that the option commutes with the "
+    "documented-irrelevant respellings (FullPlatform / FullPlatformInvariance; fullPlatform_false, fullPlatformInvariance_false, d53_* = the design finding D53 "
+    "as theorems about the model). Not proved: that the hand models of ural/facebook.py / ural/youtube.py are the code (correspondence: C19 streams, "
+    "platform_branch, normalize_whole_pa). The theorems of Props/C05.lean are about "
     "Parsed records; Props/C05Whole.lean transports them to STRINGS for the modelled parser: for every string whose cleaned, "
     "resolved form is in the grammar class of Lemmas/NormBridge.lean (scheme prefix / '//' / nothing, userinfo without /?#[], "
     "host name or bracketed IP literal, port text, absolute path, query, fragment) the result tuple is normParts of the record whose fields are "
@@ -187,6 +253,13 @@ DEEP_ORACLE_ONLY = [
     "http://a.com/?url=" * 1200 + "http://b.com/",  # the RecursionError witness fixed by /repo 0c9bfa3
     "http://a.com/?url=" * 1500 + "http://www.b.com/x/index.html?utm_source=1",
     "a.com/?redirect=" + "http://a.com/?next=" * 600 + "/z",  # absolute hops, then a relative one (urljoin)
+]
+
+PA_OPTSETS = [
+    {"platform_aware": True},
+    {"platform_aware": True, "infer_redirection": False},
+    {"platform_aware": True, "strip_protocol": False, "strip_irrelevant_subdomains": False, "quoted": True},
+    {"platform_aware": True, "strip_trailing_slash": False, "sort_query": False, "strip_fragment": False, "fix_common_mistakes": False},
 ]
 
 
@@ -273,6 +346,10 @@ def cases(rng, tier):
         yield c
     for p in urlgen.structure_sweep():
         yield _case(url=urlgen.url_of(p), opts=rng.choice(pw))
+    # platform_aware=True on facebook / youtube url shapes of the C19 generators (at the end: the
+    # stream above is unchanged); the concrete branch of Model/Platform.lean is compared on each
+    for i, u in enumerate(ppa.c19_urls(rng, tier)):
+        yield _case(url=u, opts=PA_OPTSETS[i % len(PA_OPTSETS)])
 
 
 def _url(case):
@@ -285,7 +362,8 @@ def ops(case):
     if case.get("oracle_only"):
         return []
     # component-level lines (real parser's Parsed shipped), then the whole function on the string
-    return nc.ops(_url(case), case["opts"]) + nw.norm_ops(_url(case), case["opts"])
+    # ... and, under platform_aware=True, with the CONCRETE branch (Model/Platform.lean): nothing shipped
+    return nc.ops(_url(case), case["opts"]) + nw.norm_ops(_url(case), case["opts"]) + ppa.norm_pa_ops(_url(case), case["opts"])
 
 
 def impl(case):
@@ -293,7 +371,7 @@ def impl(case):
         return [lib.guarded(nc.fn_impl, case["op"])]
     if case.get("oracle_only"):
         return []
-    return nc.impl(_url(case), case["opts"]) + nw.norm_impl(_url(case), case["opts"])
+    return nc.impl(_url(case), case["opts"]) + nw.norm_impl(_url(case), case["opts"]) + ppa.norm_pa_impl(_url(case), case["opts"])
 
 
 # ---------------------------------------------------------------------------------------
@@ -480,6 +558,39 @@ def _path_candidates(R, o):
     return S
 
 
+def _oracle_platform(tag, url, o, ensured, canonical_host, out_t, out_s):
+    """platform_aware=True on a facebook / youtube url: the branch may replace the url by the
+    canonical url of what the platform parser recognises (design finding D53), so the deletion
+    clauses are not demanded of the input's pieces.  Demanded — a DISJUNCTION one of whose members
+    is the property's own host clause, hence no more than the property states: an input that parses
+    gives a result whose host is the input's host, or the canonical platform host
+    (www.facebook.com / www.youtube.com), minus whole irrelevant labels / a leading 'amp-'; an
+    unparseable input is returned unchanged (the model's normalize_pa_only_deletes_or_rewrites says
+    what the other components are)."""
+    from urllib.parse import urlsplit
+
+    try:
+        r = urlsplit(ensured)
+        in_host, _ = r.hostname, r.port
+    except ValueError:
+        if out_s != url or out_t != url:
+            return "%s = %r / %r: an unparseable URL must be returned unchanged" % (tag, out_s, out_t)
+        return None
+    if isinstance(out_t, str):
+        return "%s returned the string %r for unsplit=False although the input parses" % (tag, out_t)
+    if not in_host or not (in_host.isascii() or nc.in_model_alphabet(in_host)):
+        return None
+    try:
+        out_host = urlsplit("//" + out_t.netloc).hostname or ""
+    except ValueError:
+        return None
+    cands = set(_host_candidates(in_host, o)) | set(_host_candidates(canonical_host, o))
+    if out_host not in set(x.lower() for x in cands) and out_host not in cands:
+        return "%s: host %r is neither the input host %r nor the canonical platform host %r minus whole irrelevant labels / a leading 'amp-' (allowed: %s)" % (
+            tag, out_host, in_host, canonical_host, sorted(cands)[:8])
+    return None
+
+
 def oracle(case):
     if case["kind"] != "url":
         return None
@@ -506,10 +617,12 @@ def oracle(case):
     ensured = c if had_proto else "http://" + c
     if o["platform_aware"]:
         try:
-            if is_facebook_url(ensured) or is_youtube_url(ensured):
-                return None  # partial: the platform branch may rewrite the URL
+            fb, yt = is_facebook_url(ensured), is_youtube_url(ensured)
         except Exception:  # noqa
             return None
+        if fb or yt:
+            # partial: the platform branch may rewrite the URL
+            return _oracle_platform(tag, url, o, ensured, "www.facebook.com" if fb else "www.youtube.com", out_t, out_s)
     try:
         r = urlsplit(ensured)
         in_user, in_pass, in_host, in_port = r.username, r.password, r.hostname, r.port
@@ -623,6 +736,8 @@ def classify(case):
     labs = ["url", nw.label(url, o)]
     if len(url) > 2000:
         labs.append("deep-or-long:oracle-only" if case.get("oracle_only") else "deep-or-long")
+    if o["platform_aware"]:
+        labs.append(ppa.label_pa(url, o))
     for k in nc.ALL_OPTS:
         if o[k] != nc.DEFAULTS[k]:
             labs.append("%s=%s" % (k, o[k]))
